@@ -92,7 +92,8 @@ func validateTDXMetadataSections(firmwareLen uint32, rawMetadata *abi.TDXMetadat
 			rawMetadata.Header.Length, expectedLength)
 	}
 	var foundTDHOB, foundBFV bool
-	var fvSize uint32
+	// 64 bits: the sizes of many firmware volumes can add up to more than 4 GiB.
+	var fvSize uint64
 	var scratchSize uint64
 	scratchCheck := func(section *abi.TDXMetadataSection) error {
 		if section.MemorySize > maxTDXScratchMemory || scratchSize+section.MemorySize > maxTDXScratchMemory {
@@ -112,7 +113,7 @@ func validateTDXMetadataSections(firmwareLen uint32, rawMetadata *abi.TDXMetadat
 			return fmt.Errorf("memory size: 0x%x mismatch with raw data size: 0x%x",
 				section.MemorySize, section.DataSize)
 		}
-		fvSize += section.DataSize
+		fvSize += uint64(section.DataSize)
 		return nil
 	}
 	for _, section := range rawMetadata.Sections {
@@ -151,7 +152,7 @@ func validateTDXMetadataSections(firmwareLen uint32, rawMetadata *abi.TDXMetadat
 	if !foundBFV {
 		return fmt.Errorf("TDX metadata doesn't contain section for boot firmware volume")
 	}
-	if fvSize != firmwareLen {
+	if fvSize != uint64(firmwareLen) {
 		return fmt.Errorf("total size of FVs doesn't add up to the fw size, total: 0x%x, expected: 0x%x", fvSize, firmwareLen)
 	}
 
